@@ -24,6 +24,7 @@
                              class of argument that is rejected after objects were opened
      multi <c> <type> <n1> <n2> <reps>   successful writes / reads of a node with several data chunks (see the op's comment)
      strand <c> <kind>       (HDF5) abandon an open identifier of kind dataset|group|attr|datatype on a node of the file
+     badnode <c> <call>      a refused node-level call (see the op's comment)
      cycle <k>               (oracle runs) marks the end of one repetition of the session: prints heap / fds / h5
                              (h5 counts file-less identifiers too: see c17_common.c)
    a link "a>b!" / a walk step "b!" is the link node X<b> whose stored path /Nope does not exist in F<b> (dangling path)
@@ -280,6 +281,37 @@ int main(int argc, char **argv)
                 if (x >= 0) H5Ldelete(hid, " strand", H5P_DEFAULT);
             }
             printf("strand %s ids+%ld", x >= 0 ? "ok" : "err", h5_count() - q); dump_state();
+        } else if (sscanf(line, "badnode %d %23s", &c, a) == 2) {
+            /* badnode <c> <call>: a node-level cgio call that is refused (or has nothing to return) on the tree /D (children X and
+               the link nodes) of the file behind handle c; like "bad", the HDF5 identifiers are counted around the call itself.
+               calls: kids_leaf kids_past names_leaf names_past  (children ids / names of a childless node, of a range past the end)
+                      getid_missing label_long name_dup name_long dims_type dims_rank linksize_nolink getlink_nolink
+                      newnode_dup newnode_type move_missing delete_notchild */
+            double root = 0, did = 0, xid = 0, tmp = 0, ids[8]; int st, cnt = 0, l1 = 0, l2 = 0; long q; char names[8 * 33], f1[64], f2[64];
+            cgsize_t dim = 3, dims13[13] = {1,1,1,1,1,1,1,1,1,1,1,1,1};
+            st = cgio_get_root_id(c, &root);
+            if (!st) st = cgio_get_node_id(c, root, "D", &did);
+            if (!st) st = cgio_get_node_id(c, did, "X", &xid);
+            if (!st && !strcmp(a, "name_dup") && cgio_get_node_id(c, did, "Y", &tmp)) cgio_create_node(c, did, "Y", &tmp);   /* (fails read-only) */
+            if (st) { printf("badnode setup"); dump_state(); continue; }
+            q = h5_count();
+            if (!strcmp(a, "kids_leaf")) st = cgio_children_ids(c, xid, 1, 8, &cnt, ids);
+            else if (!strcmp(a, "kids_past")) st = cgio_children_ids(c, did, 50, 8, &cnt, ids);
+            else if (!strcmp(a, "names_leaf")) st = cgio_children_names(c, xid, 1, 8, 33, &cnt, names);
+            else if (!strcmp(a, "names_past")) st = cgio_children_names(c, did, 50, 8, 33, &cnt, names);
+            else if (!strcmp(a, "getid_missing")) st = cgio_get_node_id(c, did, "NoSuchChild/Deeper", &tmp);
+            else if (!strcmp(a, "label_long")) st = cgio_set_label(c, xid, "ALabelThatIsLongerThanThirtyTwoCharacters");
+            else if (!strcmp(a, "name_dup")) st = cgio_set_name(c, did, tmp, "X");
+            else if (!strcmp(a, "name_long")) st = cgio_set_name(c, did, xid, "ANameThatIsLongerThanThirtyTwoCharacters");
+            else if (!strcmp(a, "dims_type")) st = cgio_set_dimensions(c, xid, "Q9", 1, &dim);
+            else if (!strcmp(a, "dims_rank")) st = cgio_set_dimensions(c, xid, "I4", 13, dims13);
+            else if (!strcmp(a, "linksize_nolink")) st = cgio_link_size(c, xid, &l1, &l2);
+            else if (!strcmp(a, "getlink_nolink")) st = cgio_get_link(c, xid, f1, f2);
+            else if (!strcmp(a, "newnode_dup")) st = cgio_new_node(c, did, "X", "Data_t", "I4", 1, &dim, dims13, &tmp);
+            else if (!strcmp(a, "newnode_type")) st = cgio_new_node(c, did, "Z9", "Data_t", "Q9", 1, &dim, dims13, &tmp);
+            else if (!strcmp(a, "move_missing")) st = cgio_move_node(c, xid, did, root);          /* D is not a child of X */
+            else st = cgio_delete_node(c, xid, did);                                            /* D is not a child of X */
+            printf("badnode %s ids+%ld", st ? "err" : "ok", h5_count() - q); dump_state();
         } else if (sscanf(line, "bad %d %15s %15s", &c, a, b) == 3) {
             /* bad <c> <entry> <class>: a data call with an invalid argument of the given class on the node /T_R8 (8 x R8) of the
                file behind handle c -- the call must fail (or be harmless) and leave nothing behind that survives the close.
